@@ -440,6 +440,13 @@ func (e *evaluator) eval(w *reclib.WorkerCtx, idx int) Result {
 			continue
 		}
 		nx := shapes[si+1]
+		// the answer depends on the files the window touches: a pair of files that the crash has
+		// not touched (both closed normally) gives the same request in every state of the history;
+		// it is sent in the states between two writes only
+		touched := func(f fileShape) bool { return f.defect() != "" || f.durField == 0 }
+		if st.Kind != "clean" && !touched(sh) && !touched(nx) {
+			continue
+		}
 		want := map[int][]reclib.Sample{}
 		wanted(sh.seg, sh.complete, want)
 		// the window ends inside the following file: after its first complete part, or (none
